@@ -325,6 +325,7 @@ func runScript(id int, script []epochScript, tm timing, can *mon.Canary) {
 	liveness := map[string]bool{"foreign.reaction": true, "reconnect.stuck": true, "reconnect.spurious": true, "heartbeat.missing": true, "reconnect.late": true, "heartbeat.gap": true, "epoch.inbound-number": true}
 	fail := func(tag, class string, cs map[string]interface{}, format string, a ...interface{}) {
 		if liveness[tag] {
+			can.Settle()
 			if w := can.StallSince(scriptStart); w > 4*tm.R+10*time.Millisecond {
 				atomic.AddInt64(&nStarved, 1)
 				r.Inconclusive(fmt.Sprintf("%s: %s not judged: the stall canary overslept by %v during this script", sig, tag, w))
